@@ -1,5 +1,4 @@
-import TinsModel.Wire.Iface
-import TinsModel.Wire.Tags
+import TinsModel.Wire.Ip.Util
 /-
   `Tins::IPSecAH` and `Tins::IPSecESP` (src/ipsec.cpp, include/tins/ipsec.h).
   AH header (12 bytes): next_header, length, reserved (2 bytes, kept as read), spi (be32), seq_number (be32); then the
@@ -17,8 +16,6 @@ structure Ah where
 deriving Repr, DecidableEq
 
 namespace Ah
-
-def byteAt (bs : Bytes) (i : Nat) : Nat := (bs.getD i 0).toNat
 
 def ofHeader (h : Bytes) : Ah :=
   ⟨byteAt h 0, byteAt h 1, (h.drop 2).take 2, Cursor.beNat ((h.drop 4).take 4), Cursor.beNat ((h.drop 8).take 4), []⟩
